@@ -72,9 +72,30 @@ def run(tier):
     lcfgs = [dict(c, consumers=[['exhaust']]) for c in lcfgs if (tier == 'thorough' or c['n'] == 2 or c['w'] == 1)]
     _e2.run_matrix('C04', 'oracle_values', [(c, 'L', bound) for c in lcfgs], res,
                    f'mode L, every source line, preemption bound {bound}')
+    bcfgs = [c for c in cfgs if c.get('backend', 't') == 't' and c['n'] <= 3 and c['w'] <= 2 and c['b'] <= 2
+             and len(c.get('consumers', [1])) == 1 and c.get('mode') != 'items']
+    if tier == 'quick':
+        bcfgs = [c for c in bcfgs if len(c.get('fail_fn') or {}) <= 1 and c.get('catch') in (None, True)]
+    _e2.run_matrix('C04', 'oracle_values', [(c, 'B', 2) for c in bcfgs], res,
+                   'mode B: visible operations, no reduction, preemption bound 2', cap=60000)
     res.coverage['preemption_bound_completed'] = bound
     # pipelines whose stages are executed concurrently by the workers: every source line of lazy_dataset.core is a
     # scheduling point as well (lazily built per-stage state, e.g. cached key tuples or offsets, is shared by the workers)
+    # unusual example types (arrays whose == is element-wise, objects equal to everything, None) and two iterations
+    # over one dataset object that are alive at the same time (pools cached per worker count are shared)
+    special = []
+    for entry, w, b in (('prefetch', 1, 1), ('prefetch', 1, 2), ('prefetch', 2, 2), ('parmap', 1, 1), ('parmap', 2, 2)):
+        for payload in ('ndarray', 'eq_any', 'none'):
+            for backend in (['t'] if payload == 'eq_any' else ['t', 'dill_mp']):
+                if entry == 'prefetch' and w == 1 and backend != 't':
+                    continue
+                special.append(dict(entry=entry, n=3, w=w, b=b, backend=backend, payload=payload))
+        for backend in ['t'] + _e2.PROCESS_BACKENDS:
+            for k in (0, 1):
+                special.append(dict(entry=entry, n=2 if backend != 't' else 3, w=w, b=b, backend=backend,
+                                    consumers=[['two-iterators', k]]))
+    _e2.run_matrix('C04', 'oracle_values', [(c, 'D', None) for c in special], res,
+                   'unusual example types; two live iterators over one dataset; mode D')
     comp = composed(tier)
     _e2.run_matrix('C04', 'oracle_values', [(c, 'D', None) for c in comp], res, 'composed pipelines, mode D')
     _e2.run_matrix('C04', 'oracle_values', [(c, 'L', 1) for c in comp if c['n'] == 2 or tier == 'thorough'], res,
